@@ -1,7 +1,9 @@
 SPECIFICATION Spec
 CONSTANTS
-  MaxClock = 28
+  MaxClock = 600
   MaxStep = 2
+  BigSteps = {30, 110}
+  Enabled = {"tick", "sched", "manual", "dry", "range", "from", "until", "fault", "update", "restart"}
   MaxCmds = 10
   Points = {1, 11, 31}
   Weight = 5
